@@ -18,9 +18,22 @@
    invoked after stop completed the operation), or nothing (FNone).  callback event:
    op.set_value().  stop event: op.set_done().
 
+   Re-entrant stop requests ([breq], [restop]): the event that calls op.set_value() (the start
+   event for FSync, otherwise every callback event) may itself call request_stop() on the very
+   stop source the operation listens to, right after the set_value (BValStop) or right before it
+   (BStopVal); the stop event may call request_stop() again (restop).  request_stop() on a source
+   whose callback is registered runs _stop_callback::operator() INLINE on the requesting thread:
+   the recursive mutex is re-entered (recursion_ + 1), the finished() test under the lock decides
+   whether the stop event is dispatched, completed() is false in the nested frame (recursion_ > 1)
+   so the result is delivered by the outermost frame only; a request on a source whose stop was
+   already requested is a no-op.  The sub-machine [pn] / [stepN] is that nested request, executed
+   by the thread that owns the mutex; [notifier] is notifyingThreadId_ of the source.
+
    The external inplace_stop_source is abstracted at its linearisation points as in
    Proto/CancellableDefs.v.  Ghost: [freed] set when the receiver is completed; every access to
-   the operation (its mutex, its stop-callback object, a body event) while freed bumps [late].
+   the operation (its mutex, its stop-callback object, a body event) while freed bumps [late];
+   [calls] the set_value / set_done calls of the body in order (newest first), also the ignored
+   ones; [badstop] the stop events dispatched in a phase other than started.
    Executable definitions only. *)
 From Coq Require Import List Bool Arith.
 Import ListNotations.
@@ -28,7 +41,8 @@ Import ListNotations.
 Module BasicSender.
 
 Inductive fmode := FSync | FInl | FSafe | FUnsafe | FNone.
-Record params := { first : fmode; second : bool }.
+Inductive bmode := BNo | BValStop | BStopVal.
+Record params := { first : fmode; second : bool; breq : bmode; restop : bool }.
 
 Inductive outcome := OVal | ODone.
 Inductive phase := PStarting | PStarted | PStoppedEarly | PCompleted.
@@ -43,22 +57,28 @@ Definition slot_val (x : slotst) : nat :=
 (* the completion tail: _op::complete() = stop_.destruct(); receiver_.complete() *)
 Inductive tail := TDereg | TDeregWait | TRoot.
 
+(* where thread 0 issued a re-entrant request_stop from: the start event / the callback event
+   that the start event invoked itself *)
+Inductive r0site := R0Start | R0Inl.
+
 Inductive pc0 :=
-| B0Reg                 (* start_impl: stop_.construct (line 766) *)
+| B0Reg                 (* start_impl: stop_.construct (line 773) *)
 | B0IAcq | B0IRel       (* the stop callback inline: lock / unlock (lines 519-529) *)
-| B0Acq                 (* auto guard{lock()}; set_started (lines 769-770) *)
-| B0Body                (* body(start) (line 774) *)
+| B0Acq                 (* auto guard{lock()}; set_started (lines 777-778) *)
+| B0Body                (* body(start) (line 782) *)
 | B0Arm                 (* start event, unsafe callback: arm the slot *)
 | B0NAcq | B0NBody | B0NRel   (* start event invokes its own safe callback: callback_impl nested *)
-| B0Rel                 (* completed(); holder reset; unlock (lines 777-781) *)
+| B0Rq (r : r0site)     (* inside a body event: request_stop() in progress, see pn *)
+| B0Rel                 (* completed(); holder reset; unlock (lines 785-789) *)
 | B0Tail (t : tail)
 | B0Fin.
 
 (* a callback thread *)
 Inductive pcc :=
 | CCall                 (* _callback::operator(): weak_.lock() / slot CAS *)
-| CAcq                  (* callback_impl: lock (line 788) *)
+| CAcq                  (* callback_impl: lock (line 797) *)
 | CBody                 (* body(callback) *)
+| CRq                   (* inside the callback event: request_stop() in progress, see pn *)
 | CRelNo                (* finished at entry: unlock, return false *)
 | CRel                  (* completed(); holder reset; unlock *)
 | CTail (t : tail)
@@ -66,7 +86,20 @@ Inductive pcc :=
 | CFin.
 
 Inductive pc3 :=
-| S3Set | S3Acq | S3Body | S3Slot | S3RelNo | S3Rel | S3Tail (t : tail) | S3CbRet | S3Fin.
+| S3Set | S3Acq | S3Body | S3Re | S3Slot | S3RelNo | S3Rel | S3Tail (t : tail) | S3CbRet | S3Fin.
+
+(* request_stop() called by a body event on the thread that holds the mutex
+   (source/inplace_stop_token.cpp lines 39-74 and _stop_callback::operator(), lines 516-552) *)
+Inductive pcn :=
+| NIdle
+| NSet                  (* try_lock_unless_stop_requested: the CAS on the source state *)
+| NAcq                  (* _stop_callback: lock (recursion_ + 1); finished() / not_started() *)
+| NBody                 (* body(stop) *)
+| NRe                   (* the stop event calls request_stop() again *)
+| NSlot                 (* stop event, unsafe callback: take the slot *)
+| NRelNo                (* finished at entry: unlock, return *)
+| NRel                  (* completed() (false: recursion_ > 1); unlock *)
+| NCbRet.               (* callbackCompleted_.store(true) (line 64) *)
 
 Record st := {
   mo : option nat; md : nat;          (* the recursive mutex: owner, depth (= recursion_) *)
@@ -74,19 +107,24 @@ Record st := {
   own : bool;                         (* safe_cb_holder_ <> nullptr *)
   refs : nat;                         (* strong references held by callbacks in flight *)
   res : option outcome;               (* the deferred result in receiver_ *)
-  src : bool; cb : cbst; slot : slotst;
+  src : bool; cb : cbst;
+  notifier : nat;                     (* notifyingThreadId_: who won request_stop *)
+  slot : slotst;
   armed : bool;                       (* the start event has made its callbacks *)
   p0 : pc0; p1 : pcc; p2 : pcc; p3 : pc3;
+  pn : pcn;                           (* the re-entrant request of the mutex owner *)
   h1 : bool; h2 : bool;               (* thread 1 / 2 holds a strong reference *)
   destroyed : bool;
   freed : bool;
   completions : list outcome;
+  calls : list outcome;               (* ghost: the body's set_value / set_done calls *)
   nstart : nat; ncallback : nat; nstop : nat;    (* body events *)
+  badstop : nat;                      (* ghost: stop events dispatched when not started / finished *)
   late : nat
 }.
 
 Inductive ev :=
-| EReg (inl : bool) | ESet | EDereg | ECbS | ECbL
+| EReg (inl : bool) | ESet | ESetNo | EDereg | ECbS | ECbL
 | ELock (old new : nat) | EUnlock (old new : nat)
 | EBStart | EBCallback | EBStop
 | ECall (i : nat) | ERet (i : nat)
@@ -95,86 +133,123 @@ Inductive ev :=
 
 Definition init (p : params) : st :=
   {| mo := None; md := 0; ph := PStarting; own := false; refs := 0; res := None;
-     src := false; cb := CbNone; slot := SIdle; armed := false;
-     p0 := B0Reg; p1 := CCall; p2 := CCall; p3 := S3Set; h1 := false; h2 := false;
-     destroyed := false; freed := false; completions := []; nstart := 0; ncallback := 0;
-     nstop := 0; late := 0 |}.
+     src := false; cb := CbNone; notifier := 3; slot := SIdle; armed := false;
+     p0 := B0Reg; p1 := CCall; p2 := CCall; p3 := S3Set; pn := NIdle; h1 := false; h2 := false;
+     destroyed := false; freed := false; completions := []; calls := []; nstart := 0;
+     ncallback := 0; nstop := 0; badstop := 0; late := 0 |}.
 
 (* ---- updates ----------------------------------------------------------------------------- *)
 Definition set_mutex (s : st) (o : option nat) (d : nat) : st :=
   {| mo := o; md := d; ph := ph s; own := own s; refs := refs s; res := res s; src := src s;
-     cb := cb s; slot := slot s; armed := armed s; p0 := p0 s; p1 := p1 s; p2 := p2 s;
-     p3 := p3 s; h1 := h1 s; h2 := h2 s; destroyed := destroyed s; freed := freed s;
-     completions := completions s; nstart := nstart s; ncallback := ncallback s;
-     nstop := nstop s; late := late s |}.
+     cb := cb s; notifier := notifier s; slot := slot s; armed := armed s; p0 := p0 s;
+     p1 := p1 s; p2 := p2 s; p3 := p3 s; pn := pn s; h1 := h1 s; h2 := h2 s;
+     destroyed := destroyed s; freed := freed s; completions := completions s; calls := calls s;
+     nstart := nstart s; ncallback := ncallback s; nstop := nstop s; badstop := badstop s;
+     late := late s |}.
 Definition set_phase (s : st) (x : phase) (r : option outcome) : st :=
   {| mo := mo s; md := md s; ph := x; own := own s; refs := refs s; res := r; src := src s;
-     cb := cb s; slot := slot s; armed := armed s; p0 := p0 s; p1 := p1 s; p2 := p2 s;
-     p3 := p3 s; h1 := h1 s; h2 := h2 s; destroyed := destroyed s; freed := freed s;
-     completions := completions s; nstart := nstart s; ncallback := ncallback s;
-     nstop := nstop s; late := late s |}.
+     cb := cb s; notifier := notifier s; slot := slot s; armed := armed s; p0 := p0 s;
+     p1 := p1 s; p2 := p2 s; p3 := p3 s; pn := pn s; h1 := h1 s; h2 := h2 s;
+     destroyed := destroyed s; freed := freed s; completions := completions s; calls := calls s;
+     nstart := nstart s; ncallback := ncallback s; nstop := nstop s; badstop := badstop s;
+     late := late s |}.
 Definition set_holder (s : st) (o : bool) (r : nat) (a b : bool) : st :=
   {| mo := mo s; md := md s; ph := ph s; own := o; refs := r; res := res s; src := src s;
-     cb := cb s; slot := slot s; armed := armed s; p0 := p0 s; p1 := p1 s; p2 := p2 s;
-     p3 := p3 s; h1 := a; h2 := b; destroyed := destroyed s; freed := freed s;
-     completions := completions s; nstart := nstart s; ncallback := ncallback s;
-     nstop := nstop s; late := late s |}.
+     cb := cb s; notifier := notifier s; slot := slot s; armed := armed s; p0 := p0 s;
+     p1 := p1 s; p2 := p2 s; p3 := p3 s; pn := pn s; h1 := a; h2 := b; destroyed := destroyed s;
+     freed := freed s; completions := completions s; calls := calls s; nstart := nstart s;
+     ncallback := ncallback s; nstop := nstop s; badstop := badstop s; late := late s |}.
 Definition set_src (s : st) (x : bool) (c : cbst) : st :=
   {| mo := mo s; md := md s; ph := ph s; own := own s; refs := refs s; res := res s; src := x;
-     cb := c; slot := slot s; armed := armed s; p0 := p0 s; p1 := p1 s; p2 := p2 s;
-     p3 := p3 s; h1 := h1 s; h2 := h2 s; destroyed := destroyed s; freed := freed s;
-     completions := completions s; nstart := nstart s; ncallback := ncallback s;
-     nstop := nstop s; late := late s |}.
+     cb := c; notifier := notifier s; slot := slot s; armed := armed s; p0 := p0 s; p1 := p1 s;
+     p2 := p2 s; p3 := p3 s; pn := pn s; h1 := h1 s; h2 := h2 s; destroyed := destroyed s;
+     freed := freed s; completions := completions s; calls := calls s; nstart := nstart s;
+     ncallback := ncallback s; nstop := nstop s; badstop := badstop s; late := late s |}.
+Definition set_notifier (s : st) (t : nat) : st :=
+  {| mo := mo s; md := md s; ph := ph s; own := own s; refs := refs s; res := res s;
+     src := src s; cb := cb s; notifier := t; slot := slot s; armed := armed s; p0 := p0 s;
+     p1 := p1 s; p2 := p2 s; p3 := p3 s; pn := pn s; h1 := h1 s; h2 := h2 s;
+     destroyed := destroyed s; freed := freed s; completions := completions s; calls := calls s;
+     nstart := nstart s; ncallback := ncallback s; nstop := nstop s; badstop := badstop s;
+     late := late s |}.
 Definition set_slot (s : st) (x : slotst) (a : bool) : st :=
   {| mo := mo s; md := md s; ph := ph s; own := own s; refs := refs s; res := res s;
-     src := src s; cb := cb s; slot := x; armed := a; p0 := p0 s; p1 := p1 s; p2 := p2 s;
-     p3 := p3 s; h1 := h1 s; h2 := h2 s; destroyed := destroyed s; freed := freed s;
-     completions := completions s; nstart := nstart s; ncallback := ncallback s;
-     nstop := nstop s; late := late s |}.
+     src := src s; cb := cb s; notifier := notifier s; slot := x; armed := a; p0 := p0 s;
+     p1 := p1 s; p2 := p2 s; p3 := p3 s; pn := pn s; h1 := h1 s; h2 := h2 s;
+     destroyed := destroyed s; freed := freed s; completions := completions s; calls := calls s;
+     nstart := nstart s; ncallback := ncallback s; nstop := nstop s; badstop := badstop s;
+     late := late s |}.
 Definition set_p0 (s : st) (x : pc0) : st :=
   {| mo := mo s; md := md s; ph := ph s; own := own s; refs := refs s; res := res s;
-     src := src s; cb := cb s; slot := slot s; armed := armed s; p0 := x; p1 := p1 s;
-     p2 := p2 s; p3 := p3 s; h1 := h1 s; h2 := h2 s; destroyed := destroyed s;
-     freed := freed s; completions := completions s; nstart := nstart s;
-     ncallback := ncallback s; nstop := nstop s; late := late s |}.
+     src := src s; cb := cb s; notifier := notifier s; slot := slot s; armed := armed s; p0 := x;
+     p1 := p1 s; p2 := p2 s; p3 := p3 s; pn := pn s; h1 := h1 s; h2 := h2 s;
+     destroyed := destroyed s; freed := freed s; completions := completions s; calls := calls s;
+     nstart := nstart s; ncallback := ncallback s; nstop := nstop s; badstop := badstop s;
+     late := late s |}.
 Definition set_pc (s : st) (i : nat) (x : pcc) : st :=
   {| mo := mo s; md := md s; ph := ph s; own := own s; refs := refs s; res := res s;
-     src := src s; cb := cb s; slot := slot s; armed := armed s; p0 := p0 s;
-     p1 := if Nat.eqb i 1 then x else p1 s; p2 := if Nat.eqb i 1 then p2 s else x;
-     p3 := p3 s; h1 := h1 s; h2 := h2 s; destroyed := destroyed s; freed := freed s;
-     completions := completions s; nstart := nstart s; ncallback := ncallback s;
-     nstop := nstop s; late := late s |}.
+     src := src s; cb := cb s; notifier := notifier s; slot := slot s; armed := armed s;
+     p0 := p0 s; p1 := if Nat.eqb i 1 then x else p1 s; p2 := if Nat.eqb i 1 then p2 s else x;
+     p3 := p3 s; pn := pn s; h1 := h1 s; h2 := h2 s; destroyed := destroyed s; freed := freed s;
+     completions := completions s; calls := calls s; nstart := nstart s;
+     ncallback := ncallback s; nstop := nstop s; badstop := badstop s; late := late s |}.
 Definition set_p3 (s : st) (x : pc3) : st :=
   {| mo := mo s; md := md s; ph := ph s; own := own s; refs := refs s; res := res s;
-     src := src s; cb := cb s; slot := slot s; armed := armed s; p0 := p0 s; p1 := p1 s;
-     p2 := p2 s; p3 := x; h1 := h1 s; h2 := h2 s; destroyed := destroyed s; freed := freed s;
-     completions := completions s; nstart := nstart s; ncallback := ncallback s;
-     nstop := nstop s; late := late s |}.
+     src := src s; cb := cb s; notifier := notifier s; slot := slot s; armed := armed s;
+     p0 := p0 s; p1 := p1 s; p2 := p2 s; p3 := x; pn := pn s; h1 := h1 s; h2 := h2 s;
+     destroyed := destroyed s; freed := freed s; completions := completions s; calls := calls s;
+     nstart := nstart s; ncallback := ncallback s; nstop := nstop s; badstop := badstop s;
+     late := late s |}.
+Definition set_pn (s : st) (x : pcn) : st :=
+  {| mo := mo s; md := md s; ph := ph s; own := own s; refs := refs s; res := res s;
+     src := src s; cb := cb s; notifier := notifier s; slot := slot s; armed := armed s;
+     p0 := p0 s; p1 := p1 s; p2 := p2 s; p3 := p3 s; pn := x; h1 := h1 s; h2 := h2 s;
+     destroyed := destroyed s; freed := freed s; completions := completions s; calls := calls s;
+     nstart := nstart s; ncallback := ncallback s; nstop := nstop s; badstop := badstop s;
+     late := late s |}.
 Definition count (s : st) (a b c : nat) : st :=
   {| mo := mo s; md := md s; ph := ph s; own := own s; refs := refs s; res := res s;
-     src := src s; cb := cb s; slot := slot s; armed := armed s; p0 := p0 s; p1 := p1 s;
-     p2 := p2 s; p3 := p3 s; h1 := h1 s; h2 := h2 s; destroyed := destroyed s;
-     freed := freed s; completions := completions s; nstart := nstart s + a;
-     ncallback := ncallback s + b; nstop := nstop s + c; late := late s |}.
+     src := src s; cb := cb s; notifier := notifier s; slot := slot s; armed := armed s;
+     p0 := p0 s; p1 := p1 s; p2 := p2 s; p3 := p3 s; pn := pn s; h1 := h1 s; h2 := h2 s;
+     destroyed := destroyed s; freed := freed s; completions := completions s; calls := calls s;
+     nstart := nstart s + a; ncallback := ncallback s + b; nstop := nstop s + c;
+     badstop := badstop s; late := late s |}.
+Definition add_call (s : st) (o : outcome) : st :=
+  {| mo := mo s; md := md s; ph := ph s; own := own s; refs := refs s; res := res s;
+     src := src s; cb := cb s; notifier := notifier s; slot := slot s; armed := armed s;
+     p0 := p0 s; p1 := p1 s; p2 := p2 s; p3 := p3 s; pn := pn s; h1 := h1 s; h2 := h2 s;
+     destroyed := destroyed s; freed := freed s; completions := completions s;
+     calls := o :: calls s; nstart := nstart s; ncallback := ncallback s; nstop := nstop s;
+     badstop := badstop s; late := late s |}.
+Definition set_badstop (s : st) (n : nat) : st :=
+  {| mo := mo s; md := md s; ph := ph s; own := own s; refs := refs s; res := res s;
+     src := src s; cb := cb s; notifier := notifier s; slot := slot s; armed := armed s;
+     p0 := p0 s; p1 := p1 s; p2 := p2 s; p3 := p3 s; pn := pn s; h1 := h1 s; h2 := h2 s;
+     destroyed := destroyed s; freed := freed s; completions := completions s; calls := calls s;
+     nstart := nstart s; ncallback := ncallback s; nstop := nstop s; badstop := n;
+     late := late s |}.
 Definition touch (s : st) : st :=
   {| mo := mo s; md := md s; ph := ph s; own := own s; refs := refs s; res := res s;
-     src := src s; cb := cb s; slot := slot s; armed := armed s; p0 := p0 s; p1 := p1 s;
-     p2 := p2 s; p3 := p3 s; h1 := h1 s; h2 := h2 s; destroyed := destroyed s;
-     freed := freed s; completions := completions s; nstart := nstart s;
-     ncallback := ncallback s; nstop := nstop s;
+     src := src s; cb := cb s; notifier := notifier s; slot := slot s; armed := armed s;
+     p0 := p0 s; p1 := p1 s; p2 := p2 s; p3 := p3 s; pn := pn s; h1 := h1 s; h2 := h2 s;
+     destroyed := destroyed s; freed := freed s; completions := completions s; calls := calls s;
+     nstart := nstart s; ncallback := ncallback s; nstop := nstop s; badstop := badstop s;
      late := if freed s then S (late s) else late s |}.
 Definition complete (s : st) : st :=
   {| mo := mo s; md := md s; ph := ph s; own := own s; refs := refs s; res := res s;
-     src := src s; cb := cb s; slot := slot s; armed := armed s; p0 := p0 s; p1 := p1 s;
-     p2 := p2 s; p3 := p3 s; h1 := h1 s; h2 := h2 s; destroyed := destroyed s; freed := true;
+     src := src s; cb := cb s; notifier := notifier s; slot := slot s; armed := armed s;
+     p0 := p0 s; p1 := p1 s; p2 := p2 s; p3 := p3 s; pn := pn s; h1 := h1 s; h2 := h2 s;
+     destroyed := destroyed s; freed := true;
      completions := match res s with Some o => o | None => ODone end :: completions s;
-     nstart := nstart s; ncallback := ncallback s; nstop := nstop s; late := late s |}.
+     calls := calls s; nstart := nstart s; ncallback := ncallback s; nstop := nstop s;
+     badstop := badstop s; late := late s |}.
 Definition set_destroyed (s : st) : st :=
   {| mo := mo s; md := md s; ph := ph s; own := own s; refs := refs s; res := res s;
-     src := src s; cb := cb s; slot := slot s; armed := armed s; p0 := p0 s; p1 := p1 s;
-     p2 := p2 s; p3 := p3 s; h1 := h1 s; h2 := h2 s; destroyed := true; freed := freed s;
-     completions := completions s; nstart := nstart s; ncallback := ncallback s;
-     nstop := nstop s; late := late s |}.
+     src := src s; cb := cb s; notifier := notifier s; slot := slot s; armed := armed s;
+     p0 := p0 s; p1 := p1 s; p2 := p2 s; p3 := p3 s; pn := pn s; h1 := h1 s; h2 := h2 s;
+     destroyed := true; freed := freed s; completions := completions s; calls := calls s;
+     nstart := nstart s; ncallback := ncallback s; nstop := nstop s; badstop := badstop s;
+     late := late s |}.
 
 (* ---- the mutex ---------------------------------------------------------------------------- *)
 Definition can_lock (t : nat) (s : st) : bool :=
@@ -190,6 +265,8 @@ Definition completed (s : st) : bool := finished (ph s) && Nat.eqb (md s) 1.
 Definition finish (s : st) (o : outcome) : st :=
   if finished (ph s) then s
   else set_phase s (match ph s with PStarting => PStoppedEarly | _ => PCompleted end) (Some o).
+(* the same called by the user's body (recorded in the ghost [calls]) *)
+Definition bfinish (s : st) (o : outcome) : st := finish (add_call s o) o.
 
 (* `completed = state_.completed(); if (completed) safe_cb_holder_.reset();` is plain code under
    the lock that runs right after the body returned, before the unlock: it belongs to the step of
@@ -198,20 +275,28 @@ Definition finish (s : st) (o : outcome) : st :=
 Definition settle (s : st) : st :=
   if completed s then set_holder s false (refs s) (h1 s) (h2 s) else s.
 
+(* the stop event reaches the body: counted; ghost: in which phase *)
+Definition stop_event (s : st) : st :=
+  let s1 := count (touch s) 0 0 1 in
+  match ph s1 with PStarted => s1 | _ => set_badstop s1 (S (badstop s1)) end.
+
 (* ---- the completion tail, executed by thread [tid] ----------------------------------------- *)
 Definition tail_entry (s : st) : tail :=
   match cb s with CbInline | CbNone => TRoot | _ => TDereg end.
 
+(* remove_callback (inplace_stop_token.cpp lines 140-172): a callback that has been taken off
+   the list is not waited for by the thread that runs (ran) it: notifyingThreadId_ *)
 Definition tail_step (tid : nat) (t : tail) (s : st) : option (st * list ev * option tail) :=
   match t with
   | TDereg =>
       match cb s with
       | CbReg => Some (set_src (touch s) (src s) CbGone, [EDereg], Some TRoot)
       | CbRun =>
-          if Nat.eqb tid 3 then Some (set_src (touch s) (src s) CbRunRm, [EDereg], Some TRoot)
+          if Nat.eqb tid (notifier s)
+          then Some (set_src (touch s) (src s) CbRunRm, [EDereg], Some TRoot)
           else Some (touch s, [EDereg], Some TDeregWait)
       | CbDone =>
-          if Nat.eqb tid 3 then Some (touch s, [EDereg], Some TRoot)
+          if Nat.eqb tid (notifier s) then Some (touch s, [EDereg], Some TRoot)
           else Some (touch s, [EDereg], Some TDeregWait)
       | _ => None
       end
@@ -231,6 +316,72 @@ Definition has_second (p : params) : bool :=
   second p && match first p with FUnsafe => false | _ => true end.
 Definition makes_holder (p : params) : bool :=
   has_second p || match first p with FInl | FSafe => true | _ => false end.
+
+(* ---- a re-entrant request_stop() of thread [t], the mutex owner, inside a body event -------- *)
+(* the rest of the body event after request_stop() returned, and the plain code of the frame that
+   dispatched the event (it belongs to the step of the last instrumented access of the request) *)
+Definition ret_rq (p : params) (t : nat) (s : st) : st :=
+  let s0 := set_pn s NIdle in
+  let s1 := match breq p with BStopVal => bfinish s0 OVal | _ => s0 end in
+  match t with
+  | 0 =>
+      match p0 s with
+      | B0Rq R0Start => set_p0 (settle (set_slot s1 (slot s1) true)) B0Rel
+      | B0Rq R0Inl => set_p0 s1 B0NRel
+      | _ => s1
+      end
+  | _ => set_pc (settle s1) t CRel
+  end.
+
+(* the stop event after its optional second request_stop(): slot / set_done *)
+Definition stop_rest (p : params) (s : st) : st * bool :=
+  match first p with
+  | FUnsafe => (s, true)
+  | _ => (settle (bfinish s ODone), false)
+  end.
+
+Definition stepN (p : params) (t : nat) (s : st) : option (st * list ev) :=
+  match pn s with
+  | NIdle => None
+  | NSet =>
+      (* stop already requested: no-op; else this thread runs the registered callback inline *)
+      if src s then Some (ret_rq p t s, [ESetNo])
+      else match cb s with
+           | CbReg => Some (set_pn (set_notifier (set_src s true CbRun) t) NAcq, [ESet])
+           | c => Some (ret_rq p t (set_src s true c), [ESet])
+           end
+  | NAcq =>
+      if can_lock t s then
+        let '(s1, e) := do_lock t s in
+        if finished (ph s1) then Some (set_pn s1 NRelNo, e)
+        else match ph s1 with
+             | PStarting => Some (set_pn (finish s1 ODone) NRelNo, e)
+             | _ => Some (set_pn s1 NBody, e)
+             end
+      else None
+  | NBody =>
+      let s1 := stop_event s in
+      if restop p then Some (set_pn s1 NRe, [EBStop])
+      else let '(s2, sl) := stop_rest p s1 in Some (set_pn s2 (if sl then NSlot else NRel), [EBStop])
+  | NRe =>
+      (* the stop event runs only after a stop request: always the no-op *)
+      if src s then
+        let '(s2, sl) := stop_rest p s in Some (set_pn s2 (if sl then NSlot else NRel), [ESetNo])
+      else None
+  | NSlot =>
+      match slot s with
+      | SArmed => Some (set_pn (settle (bfinish (set_slot s SRemoved (armed s)) ODone)) NRel,
+                        [ESlotC 1 3 true])
+      | x => Some (set_pn s NRel, [ESlotC (slot_val x) 3 false])
+      end
+  | NRelNo => let '(s1, e) := do_unlock s in Some (set_pn s1 NCbRet, e)
+  | NRel =>
+      (* completed() needs recursion_ = 1, the requesting frame holds the lock: the nested frame
+         never delivers the result (a deadlock of the model if it could) *)
+      if completed s then None
+      else let '(s1, e) := do_unlock s in Some (set_pn s1 NCbRet, e)
+  | NCbRet => Some (ret_rq p t (set_src (touch s) (src s) CbDone), [ECbS])
+  end.
 
 (* ---- thread 0 ----------------------------------------------------------------------------- *)
 Definition step0 (p : params) (s : st) : option (st * list ev) :=
@@ -257,7 +408,12 @@ Definition step0 (p : params) (s : st) : option (st * list ev) :=
       let s1 := count (touch s) 1 0 0 in
       let s2 := if makes_holder p then set_holder s1 true (refs s1) (h1 s1) (h2 s1) else s1 in
       match first p with
-      | FSync => Some (set_p0 (settle (set_slot (finish s2 OVal) (slot s2) true)) B0Rel, [EBStart])
+      | FSync =>
+          match breq p with
+          | BNo => Some (set_p0 (settle (set_slot (bfinish s2 OVal) (slot s2) true)) B0Rel, [EBStart])
+          | BValStop => Some (set_pn (set_p0 (bfinish s2 OVal) (B0Rq R0Start)) NSet, [EBStart])
+          | BStopVal => Some (set_pn (set_p0 s2 (B0Rq R0Start)) NSet, [EBStart])
+          end
       | FInl => Some (set_p0 (set_holder s2 true (S (refs s2)) (h1 s2) (h2 s2)) B0NAcq, [EBStart])
       | FSafe => Some (set_p0 (set_slot s2 (slot s2) true) B0Rel, [EBStart])
       | FUnsafe => Some (set_p0 s2 B0Arm, [EBStart])
@@ -267,11 +423,18 @@ Definition step0 (p : params) (s : st) : option (st * list ev) :=
   | B0NAcq =>
       let '(s1, e) := do_lock 0 s in
       if finished (ph s1) then None else Some (set_p0 s1 B0NBody, e)
-  | B0NBody => Some (set_p0 (finish (count (touch s) 0 1 0) OVal) B0NRel, [EBCallback])
+  | B0NBody =>
+      let s1 := count (touch s) 0 1 0 in
+      match breq p with
+      | BNo => Some (set_p0 (bfinish s1 OVal) B0NRel, [EBCallback])
+      | BValStop => Some (set_pn (set_p0 (bfinish s1 OVal) (B0Rq R0Inl)) NSet, [EBCallback])
+      | BStopVal => Some (set_pn (set_p0 s1 (B0Rq R0Inl)) NSet, [EBCallback])
+      end
   | B0NRel =>
       let '(s1, e) := do_unlock s in
       Some (set_p0 (settle (set_slot (set_holder s1 (own s1) (pred (refs s1)) (h1 s1) (h2 s1))
                                      (slot s1) true)) B0Rel, e)
+  | B0Rq _ => stepN p 0 s
   | B0Rel =>
       let c := completed s in
       let '(s1, e) := do_unlock s in
@@ -316,7 +479,14 @@ Definition stepC (p : params) (i : nat) (s : st) : option (st * list ev) :=
         let '(s1, e) := do_lock i s in
         Some (set_pc s1 i (if finished (ph s1) then CRelNo else CBody), e)
       else None
-  | CBody => Some (set_pc (settle (finish (count (touch s) 0 1 0) OVal)) i CRel, [EBCallback])
+  | CBody =>
+      let s1 := count (touch s) 0 1 0 in
+      match breq p with
+      | BNo => Some (set_pc (settle (bfinish s1 OVal)) i CRel, [EBCallback])
+      | BValStop => Some (set_pn (set_pc (bfinish s1 OVal) i CRq) NSet, [EBCallback])
+      | BStopVal => Some (set_pn (set_pc s1 i CRq) NSet, [EBCallback])
+      end
+  | CRq => stepN p i s
   | CRelNo => let '(s1, e) := do_unlock s in Some (set_pc s1 i CRet, e)
   | CRel =>
       let c := completed s in
@@ -341,9 +511,10 @@ Definition after_cb (s : st) : pc3 := match cb s with CbRunRm => S3Fin | _ => S3
 Definition step3 (p : params) (s : st) : option (st * list ev) :=
   match p3 s with
   | S3Set =>
-      if src s then None
+      (* a body event may have requested stop before: then this request is a no-op *)
+      if src s then Some (set_p3 s S3Fin, [ESetNo])
       else match cb s with
-           | CbReg => Some (set_p3 (set_src s true CbRun) S3Acq, [ESet])
+           | CbReg => Some (set_p3 (set_notifier (set_src s true CbRun) 3) S3Acq, [ESet])
            | c => Some (set_p3 (set_src s true c) S3Fin, [ESet])
            end
   | S3Acq =>
@@ -356,14 +527,16 @@ Definition step3 (p : params) (s : st) : option (st * list ev) :=
              end
       else None
   | S3Body =>
-      let s1 := count (touch s) 0 0 1 in
-      match first p with
-      | FUnsafe => Some (set_p3 s1 S3Slot, [EBStop])
-      | _ => Some (set_p3 (settle (finish s1 ODone)) S3Rel, [EBStop])
-      end
+      let s1 := stop_event s in
+      if restop p then Some (set_p3 s1 S3Re, [EBStop])
+      else let '(s2, sl) := stop_rest p s1 in Some (set_p3 s2 (if sl then S3Slot else S3Rel), [EBStop])
+  | S3Re =>
+      if src s then
+        let '(s2, sl) := stop_rest p s in Some (set_p3 s2 (if sl then S3Slot else S3Rel), [ESetNo])
+      else None
   | S3Slot =>
       match slot s with
-      | SArmed => Some (set_p3 (settle (finish (set_slot s SRemoved (armed s)) ODone)) S3Rel,
+      | SArmed => Some (set_p3 (settle (bfinish (set_slot s SRemoved (armed s)) ODone)) S3Rel,
                         [ESlotC 1 3 true])
       | x => Some (set_p3 s S3Rel, [ESlotC (slot_val x) 3 false])
       end
@@ -403,5 +576,8 @@ Definition is_none {A} (o : option A) : bool := match o with None => true | _ =>
 Definition quiescent (p : params) (s : st) : bool :=
   is_none (step p 0 s) && is_none (step p 1 s) && is_none (step p 2 s) &&
   is_none (step p 3 s) && is_none (step p 4 s).
+
+(* hd of the oldest-first call list: the first completion signal the body decided *)
+Definition first_call (s : st) : option outcome := hd_error (rev (calls s)).
 
 End BasicSender.
